@@ -169,11 +169,14 @@ CHILDREN = {}        # pid -> {'pid', 'wfd', 'due', 'proc', 'id'}: snapshot chil
 class _ForkOs(object):
     """Stands for the `os` module inside pysyncobj.serializer so that fork mode (the library's default for
     file snapshots) runs under virtual time and replays exactly.  fork() really forks: the child holds the
-    copy-on-write memory image of the fork instant, exactly as in production, but waits on a pipe before it
-    writes anything.  waitpid(WNOHANG) answers "still running" until the child's virtual duration (drawn per
-    child) has elapsed, then lets the child go, waits for it for real and reports its status: the dump file
-    is replaced at that virtual instant with the state of the fork instant, while the parent has gone on
-    applying entries, receiving snapshots and losing connections in between."""
+    copy-on-write memory image of the fork instant, exactly as in production, and runs the library's child code
+    at once (tmp file, gzip, pickle, rename, _exit) - but its rename is parked next to the dump file
+    (storage.CHILD_SUFFIX) and the harness reaps it immediately.  Towards the library the child is still running:
+    waitpid(WNOHANG) answers "still running" until the child's virtual duration (drawn per child) has elapsed; then
+    the parked file is moved over the dump file and the child's real exit status is reported.  So the dump file is
+    replaced at that virtual instant with the state of the fork instant, while the parent has gone on applying,
+    receiving snapshots and losing connections in between.  (Children are not kept alive across simulator steps:
+    a live copy-on-write child makes every page the parent touches fault, and 16 workers doing that stall each other.)"""
 
     def __getattr__(self, n):
         return getattr(os, n)
@@ -184,7 +187,6 @@ class _ForkOs(object):
         p = CUR
         if p is not None and p.dead:
             raise SimKill()
-        rfd, wfd = os.pipe()
         try:
             sys.stdout.flush()
             sys.stderr.flush()
@@ -193,22 +195,14 @@ class _ForkOs(object):
         pid = os.fork()
         if pid == 0:
             storage.IN_CHILD = True
-            try:
-                os.close(wfd)
-                for ch in CHILDREN.values():
-                    try:
-                        os.close(ch['wfd'])
-                    except OSError:
-                        pass
-                b = os.read(rfd, 1)
-            except BaseException:
-                b = b''
-            if b != b'g':
-                os._exit(99)
             return 0
-        os.close(rfd)
+        try:
+            _, status = os.waitpid(pid, 0)
+        except OSError:
+            status = 0x7f00
         dur = SIM.fork_rng.choice([0.0, 0.0, 0.03, 0.3, 1.5, 6.0]) if SIM is not None else 0.0
-        ch = {'pid': pid, 'wfd': wfd, 'due': CLK.now + dur, 'proc': p, 't0': CLK.now}
+        ch = {'pid': pid, 'status': status, 'due': CLK.now + dur, 'proc': p, 't0': CLK.now,
+              'parked': (p.conf.fullDumpFile + storage.CHILD_SUFFIX) if p is not None and p.conf.fullDumpFile else None}
         # fault: the child alone is killed by a signal (out-of-memory killer on the copy-on-write child, an operator's
         # kill) while its parent lives on and reaps it
         ch['doomed'] = SIM is not None and SIM.cfg.get('child_faults', True) and SIM.fork_rng.random() < 0.12
@@ -228,8 +222,6 @@ class _ForkOs(object):
         if (flags & os.WNOHANG) and CLK.now < ch['due']:
             return (0, 0)
         if ch.get('doomed'):
-            import signal
-            os.kill(pid, signal.SIGKILL)
             if SIM is not None:
                 SIM.mon.sit['fork_child_killed_by_signal_parent_alive'] += 1
             return finish_child(ch, False)
@@ -237,42 +229,43 @@ class _ForkOs(object):
 
     def kill(self, pid, sig):
         ch = CHILDREN.get(pid)
-        r = os.kill(pid, sig)
-        if ch is not None:
-            # the child is waiting on its pipe and has not written anything: a fatal signal ends it there
-            ch['signalled'] = True
-            if SIM is not None:
-                SIM.mon.sit['fork_child_stopped_by_parent'] += 1
-        return r
+        if ch is None:
+            return os.kill(pid, sig)
+        # (towards the library the child is running and has not replaced the dump file yet: a fatal signal ends it there)
+        ch['signalled'] = True
+        if SIM is not None:
+            SIM.mon.sit['fork_child_stopped_by_parent'] += 1
+        return None
 
 
 def finish_child(ch, let_run):
-    """let_run: the child writes its snapshot and replaces the dump file now; otherwise it dies before
-    it has written anything (it was killed together with its parent)."""
+    """let_run: the child finishes now - its snapshot replaces the dump file; otherwise it is killed before that
+    (by a signal, by its parent, or together with its parent) and its exit status says so."""
     CHILDREN.pop(ch['pid'], None)
-    try:
-        if let_run:
-            os.write(ch['wfd'], b'g')
-    except OSError:
-        pass
-    try:
-        os.close(ch['wfd'])
-    except OSError:
-        pass
-    try:
-        r = os.waitpid(ch['pid'], 0)
-    except OSError:
-        r = (ch['pid'], 0x7f00)
+    parked = ch.get('parked')
+    status = ch['status']
+    if let_run:
+        if status == 0 and parked and os.path.exists(parked):
+            os.replace(parked, parked[:-len('.forkchild')])
+    else:
+        status = 9            # terminated by SIGKILL
+        if parked:
+            try:
+                os.remove(parked)
+            except OSError:
+                pass
     p = ch.get('proc')
     if p is not None and getattr(p, 'child', None) is ch:
         p.child = None
+    if p is not None and let_run:
+        p.dump_version = getattr(p, 'dump_version', 1) + 1       # the child has replaced the dump file
     if SIM is not None:
         SIM.mon.obs['fork_children_finished' if let_run else 'fork_children_killed'] += 1
-        if let_run and r[1] != 0:
+        if let_run and status != 0:
             SIM.mon.obs['fork_children_failed'] += 1
         if let_run and CLK.now - ch['t0'] > 0:
             SIM.mon.sit['fork_child_outlived_its_tick'] += 1
-    return r
+    return (ch['pid'], status)
 
 
 class ObsSerializer(_ORIG_SERIALIZER):
@@ -287,6 +280,14 @@ class ObsSerializer(_ORIG_SERIALIZER):
         p = self._vproc
         if p is not None and SIM is not None:
             SIM.mon.on_serialize(p, data, id)
+            if getattr(self, '_Serializer__useFork', False) and getattr(self, '_Serializer__pid', 0) == 0:
+                # real forks are expensive where many workers fork at once (about 300 ms each with 16 busy workers of this
+                # sandbox): a run gets a budget of them, afterwards its nodes write their snapshots inline
+                if SIM.forks_left <= 0:
+                    self._Serializer__useFork = False
+                    SIM.mon.obs['fork_budget_exhausted_inline_from_now'] += 1
+                else:
+                    SIM.forks_left -= 1
         try:
             return _ORIG_SERIALIZER.serialize(self, data, id)
         finally:
@@ -704,6 +705,7 @@ class Sim(object):
         import pysyncobj.serializer as _SERMOD
         _SERMOD.os = _ForkOs()
         self.fork_rng = random.Random(seed * 7919 + 5)
+        self.forks_left = cfg.get('fork_budget', 3)
         S.createPoller = lambda t: NullPoller()
         install_virtual_time(self._battery_sleep)
         self.msg_cap = cfg.get('msg_cap', 400000)
@@ -1101,7 +1103,7 @@ class Sim(object):
                 if p is not None and not p.dead:
                     return None
                 inc = (p.inc + 1) if p is not None else 0
-                members = self.current_members()
+                members = self.ro_join_members()
                 p = self.start_proc(key, None, members, inc=inc)
                 self.stats['ro_join'] += 1
                 self.mon.sit['ro_join'] += 1
@@ -1152,6 +1154,9 @@ class Sim(object):
 
     def current_members(self):
         return list(self.members0)
+
+    def ro_join_members(self):
+        return self.current_members()
 
     def kill_proc(self, p):
         """Process kill between two steps: memory gone, files as they are, sockets closed by the kernel."""
@@ -1572,6 +1577,18 @@ class Sim(object):
         self.phase = 'quiet'
         if self.blocked:
             self.one_step(('H',))
+        if self.cfg.get('quiet_minority_down') and not self.cfg.get('dynamic'):
+            # "a majority of members can exchange messages": a minority of the voters stays down for the whole quiet period
+            voters = sorted(k for k, p in self.procs.items() if p.voter)
+            kmax = (len(voters) - 1) // 2
+            if kmax >= 1:
+                down = self.rng.sample(voters, self.rng.randint(1, kmax))
+                for k in down:
+                    p = self.procs[k]
+                    p.down_in_quiet = True
+                    if not p.dead:
+                        self.one_step(('KILL', k))
+                self.mon.sit['quiet_with_minority_down'] += 1
         self.quiet_prepare()
         self.mon.quiet_begin()
         while True:
@@ -1587,7 +1604,7 @@ class Sim(object):
     def quiet_prepare(self):
         # faults stop: every killed voter is started again
         for p in list(self.procs.values()):
-            if p.dead and p.voter and not getattr(p, 'left', False):
+            if p.dead and p.voter and not getattr(p, 'left', False) and not getattr(p, 'down_in_quiet', False):
                 self.one_step(('R', p.key))
 
     def teardown(self):
